@@ -384,6 +384,14 @@ impl<'a> Constraint<'a> {
         }
     }
 
+    /// There is no query syntax for a constraint on an empty collection (an empty `[ ]` does not parse)
+    fn empty_collection_error() -> StamError {
+        StamError::QuerySyntaxError(
+            "There is no query syntax for a constraint on an empty collection".to_string(),
+            "Constraint::to_string()",
+        )
+    }
+
     fn closed(querystring: &str) -> bool {
         querystring.is_empty()
             || querystring.starts_with(";")
@@ -831,6 +839,9 @@ impl<'a> Constraint<'a> {
                 s += &format!(" LIMIT {} {};", begin, end);
             }
             Self::Annotations(handles, qualifier, depth) => {
+                if handles.is_empty() {
+                    return Err(Self::empty_collection_error());
+                }
                 let store = handles.store();
                 s += "[ ";
                 for (i, handle) in handles.iter().enumerate() {
@@ -862,6 +873,9 @@ impl<'a> Constraint<'a> {
                 s += " ];";
             }
             Self::Data(handles, qualifier) => {
+                if handles.is_empty() {
+                    return Err(Self::empty_collection_error());
+                }
                 let store = handles.store();
                 s += "[ ";
                 for (i, (sethandle, handle)) in handles.iter().enumerate() {
@@ -882,6 +896,9 @@ impl<'a> Constraint<'a> {
                 s += " ];";
             }
             Self::Keys(handles, qualifier) => {
+                if handles.is_empty() {
+                    return Err(Self::empty_collection_error());
+                }
                 let store = handles.store();
                 s += "[ ";
                 for (i, (sethandle, handle)) in handles.iter().enumerate() {
@@ -900,6 +917,9 @@ impl<'a> Constraint<'a> {
                 s += " ];";
             }
             Self::Resources(handles, qualifier) => {
+                if handles.is_empty() {
+                    return Err(Self::empty_collection_error());
+                }
                 let store = handles.store();
                 s += "[ ";
                 for (i, handle) in handles.iter().enumerate() {
@@ -919,6 +939,9 @@ impl<'a> Constraint<'a> {
                 s += " ];";
             }
             Self::TextSelections(handles, qualifier) => {
+                if handles.is_empty() {
+                    return Err(Self::empty_collection_error());
+                }
                 let store = handles.store();
                 s += "[ ";
                 for (i, (reshandle, handle)) in handles.iter().enumerate() {
